@@ -21,7 +21,7 @@ from .world import World, Session, Running
 class Rig:
     def __init__(self, chooser=None, backend="memory", delay=0.0, delay_ops=None, tree=None, users=None,
                  n_sessions=1, window=65536, server_kwargs=None, spy=None, mtime=None, advance=None,
-                 base="/", epoch0=None, max_iterations=200000, host="127.0.0.1"):
+                 base="/", epoch0=None, max_iterations=200000, host="127.0.0.1", via_run=False):
         kw = {} if epoch0 is None else {"epoch0": epoch0}
         self.world = World(chooser=chooser, window=window, max_iterations=max_iterations, **kw)
         a = self.world.aioftp
@@ -54,7 +54,17 @@ class Rig:
         elif self.tmp is None and str(self.base) != "/":
             backends.populate_memory(self.server, {}, base=str(self.base))
         self.spy.armed = True
-        self.world.start_server(self.server, host=host)
+        self.run_task = None
+        if via_run:
+            # the documented one-call way: Server.run() = start + serve_forever, ended by cancelling it
+            self.world.loop.current_owner = "server"
+            act = self.world.loop.chooser.active
+            self.world.loop.chooser.active = False
+            self.run_task = self.world.spawn(self.server.run(host, 2121))
+            self.world.settle(0)
+            self.world.loop.chooser.active = act
+        else:
+            self.world.start_server(self.server, host=host)
         self.host = host
         self.sessions = [Session(self.world, name=f"p{i}", advance=advance, host=host) for i in range(n_sessions)]
         self.advance = advance
